@@ -40,7 +40,7 @@ DEFAULTS: Dict[str, Any] = dict(
     max_depth=3, ops_per_step=(2, 5), big_corr=False, autograd=False, bwd_annotation=True, step_gap=(0, 1, 1, 7),
     pre_ops=1, post_ops=1, first_step=None, file_order="time", p_plain_rt=0.08, kernel_durs=(0, 1, 5, 20, 60),
     launch_lat=(0, 0, 1, 3, 10), queue_lat=(0, 0, 1, 5, 40), device_pid=0, repeat_names=False, annotation_nest=False,
-    p_leaf_children=(0, 3), ops_pool=None, p_unlaunched=0.0, sync_straddle=False, source_counters=False, outer_frame=False, corr_zero=False, small_corr=False, tid_base=None,
+    p_leaf_children=(0, 3), ops_pool=None, p_unlaunched=0.0, sync_straddle=False, source_counters=False, outer_frame=False, corr_zero=False, small_corr=False, tid_base=None, tid_desc=False, post_launch=False,
 )
 
 
@@ -298,8 +298,16 @@ class Sim:
             if th["t"] == ts:
                 th["t"] += 1
             e["dur"] = th["t"] - ts
+            step_end = th["t"]
             th["t"] += self.r.choice(p["step_gap"])
             yield
+            if p["post_launch"] and k == p["n_steps"] - 1:
+                # a bare launch call right after the last step; most of the time it starts exactly when the step ends
+                # (the boundary of "no later than its end" when the last step is kept)
+                if self.r.random() < 0.7:
+                    th["t"] = step_end
+                self.launch(th, self.r.choice(["k", "cpy"]))
+                yield
         for _ in range(p["post_ops"]):
             yield from self.op(th, 0, self.ops_pool)
 
@@ -314,7 +322,7 @@ class Sim:
         t0 = p["base"] + self.r.randint(0, 50)
         ths = []
         for i in range(p["n_threads"]):
-            th = {"t": t0 + i * self.r.randint(0, 5), "tid": self.tid0 + i,
+            th = {"t": t0 + i * self.r.randint(0, 5), "tid": self.tid0 + ((6 - i) if p["tid_desc"] else i),     # tid_desc: worker / autograd threads sort before the main thread
                   "streams": self.streams if i == 0 else self.r.sample(self.streams, max(1, len(self.streams) - 1))}
             if i == 0:
                 prog = self.main_prog(th)
@@ -427,6 +435,8 @@ def random_params(rnd: random.Random, tier: str, **over: Any) -> Dict[str, Any]:
     )
     p["small_corr"] = rnd.random() < 0.35 and not p["big_corr"]
     p["tid_base"] = rnd.choice([None, None, None, 33000, 40000, 140737, 2 ** 22 - 200])
+    p["tid_desc"] = rnd.random() < 0.3
+    p["post_launch"] = rnd.random() < 0.3
     if p["autograd"]:
         p["n_threads"] = max(2, p["n_threads"])
     if tier == "thorough" and rnd.random() < 0.15:
